@@ -10,7 +10,10 @@ Trace : [first, again, other, pureM, pureV]
 Opaque leaves (MatchesRegex, DocTestMatches, filesystem matchers, Warnings, MatchesPredicate[WithParams]
 over harness predicates) are real testtools matchers; the Lean side only sees the verdict table
 `(opq id (value verdict)...)` that this module computes with an *independent oracle* (re / doctest /
-os.path / tarfile / warnings called directly), for every value that can reach the leaf.
+os.path / tarfile / warnings called directly), for every value that can reach the leaf (found by a dry
+run with recording stand-ins, plus every sub-value of the matchee).  `(pred id msgkind rows...)` is
+MatchesPredicate(<harness predicate>, <message with one / no / two conversions or empty>): the table is
+the predicate's own truth value, the `message % matchee` step is modelled in Lean.
 """
 import copy, doctest, os, random, re, stat, sys, tarfile, tempfile, warnings
 from harness.core import Prop
@@ -337,7 +340,8 @@ class C06(Prop):
     budgets = {'quick': 50000, 'thorough': 1200000}
     time_limit = {'quick': 40, 'thorough': 480}
     rule = ('value-directed random matcher expressions (depth 0-4) over all stock matchers of testtools.matchers.__all__ x matchees '
-            'from ints, strs, bytes, None, lists, dicts, objects with attributes, exc_info tuples, callables, scratch-dir paths; '
+            'from ints, strs, bytes, None, lists, dicts, objects with attributes, exc_info tuples, callables, scratch-dir paths '
+            '(MatchesPredicate leaves with well- and ill-formed messages included); '
             '~10% deliberately ill-typed; MatchesSetwise nodes carry two forced set-iteration orders. thorough adds every '
             'combinator over <=2 leaves of a 9-leaf alphabet x 8 values. non-trivial = a combinator at the root and the '
             'matcher has a Boolean verdict; distinct = distinct input S-expression')
